@@ -87,7 +87,17 @@ func NewCtx(w *harness.W, p, mode string, needEng, needRef bool) (cx *Ctx, ok bo
 	}
 	cx.Re = re
 	if needEng {
-		eng, err := meta.Compile(p)
+		var eng *meta.Engine
+		if mode == "posix" {
+			// the engine twin of CompilePOSIX: POSIX syntax (^ and $ are line anchors there), not Perl syntax
+			parsed, perr := syntax.Parse(p, syntax.POSIX)
+			if perr != nil {
+				panic("std accepted a POSIX pattern that regexp/syntax rejects: " + p)
+			}
+			eng, err = meta.CompileRegexp(parsed, meta.DefaultConfig())
+		} else {
+			eng, err = meta.Compile(p)
+		}
 		if err != nil {
 			cx.failRaw("meta.Compile", nil, "", "compiles", "error: "+err.Error())
 			return nil, false
